@@ -8,6 +8,7 @@
 //                     userraw : ulock_t itself as the Lock of condition_variable_any
 //                     spin    : std::unique_lock<pika::concurrency::detail::spinlock>
 //   flag=0|1          initial value of the shared variable the predicate reads
+//   script=i,j,...    directed schedule prefix (thread ids; an id that is not schedulable is skipped)
 //   mode=os|pika      logical threads are plain OS threads (default) or pika tasks (own task ids:
 //                     the other branch of stop_state::remove_callback's thread comparison)
 // Thread ops: lock ; unlock ; set v ; n1 ; nall ; wait ; waitp ; twait ; twaitp
@@ -189,6 +190,19 @@ static void run_one(case_t const& c)
     int k = int(c.threads.size());
     auto* ctl = new controller(k, std::uint64_t(c.geti("seed", 1)), int(c.geti("strat", 0)));
     ctl->max_steps = std::size_t(c.geti("maxsteps", 20000));
+    {
+        // script=<comma separated thread ids>: directed schedule prefix (PRNG choices afterwards)
+        std::string sc = c.gets("script", "");
+        std::size_t pos = 0;
+        while (pos < sc.size())
+        {
+            std::size_t q = sc.find(',', pos);
+            if (q == std::string::npos) q = sc.size();
+            std::string tok = sc.substr(pos, q - pos);
+            if (!tok.empty()) ctl->script.push_back(std::atoi(tok.c_str()));
+            pos = q + 1;
+        }
+    }
     std::string cvk = c.gets("cv", "plain");
     std::string lk = c.gets("lock", "user");
     using spin = pika::concurrency::detail::spinlock;
